@@ -207,6 +207,60 @@ def cli_memory_rules(ctx, prog, cg, root_name, rule):
     chk.count('cli_memory_obligations', n)
 
 
+def whole_file_read_rule(ctx, prog, cg, rule):
+    """the preload file is read whole, whatever its size: the buffer that receives it is sized from the measured
+    file size (ftell / lseek / st_size).  A reader with a fixed capacity makes enable/disable refuse (or cut) files
+    that the writer itself can produce, e.g. a file that enable has just pushed over the cap cannot be disabled."""
+    from engine.dataflow import def_exprs
+    chk = ctx.chk
+    R = prog.require_func(READER)
+    reach = cg.reachable([R])
+    reads = []
+    for key, (f, _, _) in reach.items():
+        for c in f.calls():
+            if c.get('callee') in ('fread', 'read', 'fgets', 'getline', 'getdelim'):
+                reads.append((f, c))
+    if not reads:
+        raise AnalysisBroken('%s reads the file by means the rule does not know' % READER)
+    ok, why = False, ''
+    for f, c in reads:
+        if c['callee'] in ('getline', 'getdelim'):
+            ok = True
+            continue
+        dst = decl_of(arg(c, 0 if c['callee'] != 'read' else 1))
+        if dst is None:
+            continue
+        sized = False
+        for d in def_exprs(f, dst['id']):
+            sd = strip(d)
+            if sd is None or sd.k != 'CallExpr' or sd.get('callee') not in ('malloc', 'calloc', 'realloc'):
+                continue
+            # variables the size is computed from
+            seen, work = set(), [n['ref']['id'] for a in sd.ch[1:] if a is not None for n in a.walk()
+                                 if n.k == 'DeclRefExpr' and n['ref']['kind'] in ('var', 'parm')]
+            while work:
+                v = work.pop()
+                if v in seen:
+                    continue
+                seen.add(v)
+                for e in def_exprs(f, v):
+                    for n in e.walk():
+                        if n.k == 'CallExpr' and n.get('callee') in ('ftell', 'ftello', 'lseek', 'lseek64'):
+                            sized = True
+                        if n.k == 'MemberExpr' and n.get('member') == 'st_size':
+                            sized = True
+                        if n.k == 'DeclRefExpr' and n['ref']['kind'] in ('var', 'parm'):
+                            work.append(n['ref']['id'])
+        if sized:
+            ok = True
+        else:
+            why = '%s in %s fills a buffer whose size does not depend on the size of the file' % (render(c)[:50], f.name)
+    chk.ob(rule, 'preload-file-read-whole', ok, reads[0][1].where(), R.name,
+           '%s: files above a fixed capacity are refused or cut, although the writer produces them (enable on a file just '
+           'below the capacity succeeds, the disable that follows fails and the entry stays)' % why,
+           how='the receiving buffer is allocated from the measured file size')
+
+
 def line_start_rule(ctx, prog, rule):
     """In the active-line search: a loop that steps a pointer backwards to find the beginning of the line must
     be able to reach it, i.e. its lower bound is the (never modified) start of the content.  A bound that is
@@ -372,6 +426,7 @@ def run(ctx):
     follower_test(ctx, prog, 'Q6')
     line_start_rule(ctx, prog, 'Q7')
     cli_memory_rules(ctx, prog, cg, ENABLE, 'Q8')
+    whole_file_read_rule(ctx, prog, cg, 'Q1')
     # ---- Q3 ------------------------------------------------------------------------------------------
     ba = BoundsAnalysis(prog, cg)
     newbuf = decl_of(arg(wc, 0))
